@@ -213,7 +213,9 @@ impl Engine for SeqEngine {
                 };
                 let (start, end) = if w.chance(1, 2) { (Bound::Empty, Bound::Max) } else { (b(&mut w), b(&mut w)) };
                 Op::Range { start, end, limit: *w.pick(&[0usize, 1, 2, 3, 5, 100, usize::MAX]) }
-            } else if roll < p.time_ops + p.reopen + p.range + p.ttl_ops && ttl {
+            } else if roll < p.time_ops + p.reopen + p.range + p.ttl_ops && (ttl || roll % 4 == 0) {
+                // (a quarter of these also on stores without TTL support: every TTL call must then
+                // be refused without any effect)
                 match w.below(6) {
                     0 | 1 => Op::Insert { key, val: gen_val(&mut w, &p, blocks_cap), ts: gen_ts_for(&mut w, &p), ttl: gen_ttl(&mut w), bytes: w.chance(1, 2) },
                     2 => Op::UpdateTtl { key, ttl: gen_ttl(&mut w) },
